@@ -7,7 +7,7 @@ use refimpl as r;
 
 fn budget(t: Tier) -> u64 {
     match t {
-        Tier::Quick => 1400,
+        Tier::Quick => 2_800,
         Tier::Thorough => 60_000,
     }
 }
